@@ -187,6 +187,9 @@ def execute(world, scenario):
 def judge(spec, scenario, history, codec=None):
     viol = []
     probes = {}
+    ra = engine.runaway_violation(history)
+    if ra:
+        return ra, probes
     ops = {op["id"]: op for a in scenario["actors"] for op in a["ops"]}
     by_op = {}
     for e in history:
